@@ -1875,6 +1875,19 @@ impl Node {
 
     fn remove_children(&self, state: &State) {
         self.foreach_child(&mut |index, child| {
+            /* [became_necessary] links the inputs one by one, and linking an input can panic
+            (its height may exceed the configured maximum). If that panic was caught, the inputs
+            after it were never linked; unlinking them would index out of bounds and turn the
+            drop of the remaining handles into a second panic. */
+            let linked = {
+                let pci = self.parent_child_indices.borrow();
+                pci.my_parent_index_in_child_at_index
+                    .get(index as usize)
+                    .map_or(false, |parent_index| *parent_index >= 0)
+            };
+            if !linked {
+                return;
+            }
             child.remove_parent(index, self.as_parent_dyn_ref());
             child.check_if_unnecessary(state);
         })
